@@ -1,6 +1,7 @@
 import SasLexer.Spec.Basic
 import SasLexer.Lex.Main
 import SasLexer.Proofs.Pure.Resolved
+import SasLexer.Properties.C04
 /-!
 # C05 — the bulk resolved view equals the per-token accessors: theorems
 
@@ -12,11 +13,14 @@ import SasLexer.Proofs.Pure.Resolved
   regimes, so this is a statement about the code's arithmetic.
 * `C05_wf_needed` (proved): the hypothesis is necessary — a concrete ill-formed buffer on which
   the two views differ.
-* Full statement `C05_statement`: `Spec.C05` on the dump of every source.  The remaining link —
-  every buffer the lexer produces is `WF` — follows from the kernel invariants (`KMono`, `KPos`)
-  for the monotonicity part; line-table well-formedness is decided per run (`Spec.C05` +
-  `Spec.C04` on implementation dumps; model/implementation correspondence on both views;
-  `buffer-script` correspondence of the accessor code on arbitrary buffers).
+* `C05_model` (proved, every input): the buffers of the **modelled lexer** are well-formed — the line-table
+  part is the model theorem `model_lineWF` (scanning discipline, `Proofs/Model/Disc*.lean`), monotonicity the
+  kernel theorem `run_KMono` — so for every source on which the model returns at end of input the bulk view has
+  one row per token and row `k` is what the accessors return for token `k` (debug profile; release under the
+  monitored hypothesis that token starts never decrease).
+* Full statement `C05_statement`: `Spec.C05` on the dump of every source.  For the implementation the link is
+  decided per run (`Spec.C05` + `Spec.C04` on implementation dumps; model/implementation correspondence on both
+  views; `buffer-script` correspondence of the accessor code on arbitrary buffers).
 -/
 namespace SasLexer
 
@@ -35,6 +39,20 @@ theorem C05_wf_needed :
     (b.accessorRow ⟨false, false, false⟩ 0).toOption.map (·.endLine) = some 1 ∧
     ((b.resolved ⟨false, false, false⟩).toOption.bind (·.head?)).map (·.endLine) = some 2 := by
   decide
+
+/-- **C05 for the modelled lexer, every input**: both views agree on every buffer the model produces -/
+theorem C05_model_of_mono (cfg : Cfg) (s : List Char) (hend : (lexProgram cfg s).ending = some .eof)
+    (hmono : TokMono (lexProgram cfg s).buf) (hsmall : (lineStarts s).length < two32) :
+    ∃ rows, (lexProgram cfg s).buf.resolved cfg = .ok rows ∧ rows.length = (lexProgram cfg s).buf.toks.length ∧
+      ∀ k r, rows[k]? = some r → (lexProgram cfg s).buf.accessorRow cfg k = .ok r := by
+  obtain ⟨pre, e, htoks, _⟩ := model_single_eof cfg s hend
+  exact C05_pure cfg _ (model_lineWF cfg s hend hmono hsmall).wf (by rw [htoks]; simp)
+
+theorem C05_model (cfg : Cfg) (hd : cfg.debug = true) (s : List Char) (hend : (lexProgram cfg s).ending = some .eof)
+    (hsmall : (lineStarts s).length < two32) :
+    ∃ rows, (lexProgram cfg s).buf.resolved cfg = .ok rows ∧ rows.length = (lexProgram cfg s).buf.toks.length ∧
+      ∀ k r, rows[k]? = some r → (lexProgram cfg s).buf.accessorRow cfg k = .ok r :=
+  C05_model_of_mono cfg s hend (model_tokMono_debug cfg hd s hend) hsmall
 
 /-- non-vacuity: the buffer of a multi-line input with an empty token at a line start -/
 example : Spec.C05 "a;\n%let x 1;\n".toList (modelDump ⟨true, false, false⟩ "a;\n%let x 1;\n".toList) = [] := by
